@@ -2,7 +2,7 @@
 //@ loops: xpoll.loops
 //@ enforce: xpoll_fd_reg_del
 //@ props: C08 C16 C04
-//@ expect: postcondition>=6 canary=4
+//@ expect: postcondition>=5 canary=4
 #include "_unit.h"
 void harness(void)
 {
